@@ -6,6 +6,7 @@ import (
 	"os"
 	"path/filepath"
 	"runtime"
+	"runtime/pprof"
 	"sort"
 	"strconv"
 	"strings"
@@ -71,6 +72,7 @@ func main() {
 	if len(os.Args) < 2 {
 		usage()
 	}
+
 	repo := envOr("VP_REPO", "/repo")
 	verif := envOr("VP_VERIF", "/verif")
 	if err := loadFindings(verif); err != nil {
@@ -182,6 +184,15 @@ func checkCmd(repo, verif, prop, tier, only string) int {
 		return 2
 	}
 	bootT := time.Since(start) - loadT
+	if pf := os.Getenv("VP_PROF"); pf != "" {
+		f, _ := os.Create(pf)
+		pprof.StartCPUProfile(f)
+		go func() {
+			time.Sleep(45 * time.Second)
+			pprof.StopCPUProfile()
+			f.Close()
+		}()
+	}
 	var names []string
 	for n := range P.harnesses {
 		if strings.HasPrefix(n, "H_"+prop+"_") && (only == "" || strings.Contains(n, only)) {
@@ -467,7 +478,7 @@ func writeEvidence(P *Program, verif, prop, tier string, seed int, results []*Ha
 		"queries_sat":                   qsat,
 		"queries_unknown":               qunk,
 		"solver_time_s":                 solverT.Seconds(),
-		"solver":                        "z3 4.8.12 (one process per worker, check-sat-assuming)",
+		"solver":                        "z3 5.1.0 (z3-new; one process per worker, check-sat-assuming); floating-point and timed-out queries one-shot on z3 4.8.12, z3 5.1.0, cvc5 1.0",
 		"known_findings_seen":           keys(knownSeen),
 		"inconclusive_items":            incon,
 		"explanation":                   "states = completed feasible paths of the symbolically executed harnesses; transitions = symbolic branch decisions; every assertion is decided by an SMT query over all values of the symbolic inputs within the harness bounds",
